@@ -24,11 +24,10 @@ Section FLf.
   Proof.
     intros N nl a next ty Ha Hnext.
     assert (HW : flw p cp N (FPrint nl a next ty)).
-    { intros n Hn G cur cont st s st' e ce k Hwc Hf Hkd Hws Hnc Hl HG Hbn Hni H8 Hsh He HCK.
+    { intros n Hn G cur cont st s st' e ce k Hwc Hf Hkd Hws Hl HG Hbn Hni Hsh He HCK.
       rewrite wc_unfold in Hwc. apply wc_print_inv in Hwc. destruct Hwc as [a' [st1 [next' [Hca [Hwn Es]]]]]. subst s.
-      simpl in Hf, Hkd, Hws, Hnc.
+      simpl in Hf, Hkd, Hws.
       apply andb_prop in Hf. destruct Hf as [Hf1 Hf2]. apply andb_prop in Hws. destruct Hws as [Hw1 Hw2].
-      apply andb_prop in Hnc. destruct Hnc as [Hn1 Hn2].
       apply andb_prop in Hkd. destruct Hkd as [Hkd Hsame]. apply andb_prop in Hkd. destruct Hkd as [Hkd Hta].
       apply andb_prop in Hkd. destruct Hkd as [Hka Hkn]. apply negb_true_iff in Hta. apply Bool.eqb_prop in Hsame.
       assert (Hkind : tkind p (FPrint nl a next ty) = tkind p next) by (unfold tkind at 1; simpl; symmetry; exact Hsame).
@@ -37,7 +36,7 @@ Section FLf.
       assert (Hg2 : grows st1 st') by (eapply wc_grows; exact Hwn).
       destruct n as [|n1]; [apply sim_zero|].
       eapply sim_fstep; [reflexivity|]. apply sim_cstep. simpl.
-      apply (Ha n1 ltac:(lia) G cur CI64 st a' st1 e ce _ _ Hca Hf1 Hka Hta Hw1 Hn1).
+      apply (Ha n1 ltac:(lia) G cur CI64 st a' st1 e ce _ _ Hca Hf1 Hka Hta Hw1).
       - eapply lifted_ok_grows; eauto.
       - exact HG.
       - intros z Hz. apply Hbn. simpl. apply in_or_app. left. exact Hz.
@@ -49,11 +48,10 @@ Section FLf.
           [|eapply sim_stuck; reflexivity].
         apply vrel_int in Hv. subst pv. apply sim_cstep. simpl.
         eapply sim_out; [reflexivity|].
-        apply (Hnext j1 ltac:(lia) G cur cont st1 next' st' e ce k Hwn Hf2 Hkn Hw2 Hn2 Hl).
+        apply (Hnext j1 ltac:(lia) G cur cont st1 next' st' e ce k Hwn Hf2 Hkn Hw2 Hl).
         + eapply Gused_grows; eauto.
         + eapply incl_grows; [|exact Hg1]. intros z Hz. apply Hbn. simpl. apply in_or_app. right. exact Hz.
         + eapply names_in_grows; eauto.
-        + intros z Hz. apply H8. simpl. apply in_or_app. right. exact Hz.
         + exact Hsh.
         + eapply erel_weaken; [exact He | | lia]. apply Sof_incl. intros bb Hx. apply fvs_print. right. exact Hx.
         + eapply CK_transfer; [exact Hsh | exact HCK | | lia]. intros z0 _ Hz0. split; [|reflexivity].
@@ -85,16 +83,14 @@ Section FLf.
   Proof.
     intros N so a b t1 t2 ty Ha Hb0 H1 H2.
     assert (HW : flw p cp N (FIfC so a b t1 t2 ty)).
-    { intros n Hn G cur cont st s st' e ce k Hwc Hf Hkd Hws Hnc Hl HG Hbn Hni H8 Hsh He HCK.
+    { intros n Hn G cur cont st s st' e ce k Hwc Hf Hkd Hws Hl HG Hbn Hni Hsh He HCK.
       rewrite wc_unfold in Hwc. apply wc_ifc_inv in Hwc.
       destruct Hwc as [cont1 [st0 [a' [sta [b' [stb [t' [stt [e' [Hshare [Hca [Hcb [Hwt [Hwe Es]]]]]]]]]]]]]]. subst s.
-      simpl in Hf, Hkd, Hws, Hnc.
+      simpl in Hf, Hkd, Hws.
       apply andb_prop in Hf. destruct Hf as [Hf Hf3]. apply andb_prop in Hf. destruct Hf as [Hf Hf2].
       apply andb_prop in Hf. destruct Hf as [Hf1 Hfb].
       apply andb_prop in Hws. destruct Hws as [Hw Hw3]. apply andb_prop in Hw. destruct Hw as [Hw Hw2].
       apply andb_prop in Hw. destruct Hw as [Hw1 Hwb].
-      apply andb_prop in Hnc. destruct Hnc as [Hnn Hn3]. apply andb_prop in Hnn. destruct Hnn as [Hnn Hn2].
-      apply andb_prop in Hnn. destruct Hnn as [Hn1 Hnb].
       apply andb_prop in Hkd. destruct Hkd as [Hkd Hkty]. apply andb_prop in Hkd. destruct Hkd as [Hkd Hkt2].
       apply andb_prop in Hkd. destruct Hkd as [Hkd Hkt1]. apply andb_prop in Hkd. destruct Hkd as [Hkd Hkta].
       apply andb_prop in Hkd. destruct Hkd as [Hkd Hk2]. apply andb_prop in Hkd. destruct Hkd as [Hkd Hk1].
@@ -119,34 +115,30 @@ Section FLf.
       assert (Hbr : forall i, (i < n)%nat -> forall c : bool,
                 sim p cp i (FEval (if c then t1 else t2) e k) (SNext (Run (if c then t' else e') ce))).
       { intros i Hi c. destruct c.
-        - rewrite <- Hkt1 in Hsh1, HCK1. apply (H1 i ltac:(lia) G cur cont1 stb t' stt e ce k Hwt Hf2 Hk1 Hw2 Hn2).
+        - rewrite <- Hkt1 in Hsh1, HCK1. apply (H1 i ltac:(lia) G cur cont1 stb t' stt e ce k Hwt Hf2 Hk1 Hw2).
           + exact Lstt.
           + eapply Gused_grows; [exact HG | exact G2].
           + eapply incl_grows; [|exact G2].
             intros z Hz. apply Hbn. simpl. rewrite !in_app_iff. tauto.
           + intros x Hx. apply in_cnames_inv in Hx. destruct Hx as [bb [Hbb E]]. subst x.
             eapply names_in_grows; [exact Hni | exact G2 | apply in_cnames; apply Hsub; exact Hbb].
-          + intros x Hx Hin. apply (H8 x); [simpl; rewrite !in_app_iff; tauto|].
-            apply in_cnames_inv in Hin. destruct Hin as [bb [Hbb E]]. rewrite <- E. apply in_cnames. apply Hsub. exact Hbb.
           + exact Hsh1.
           + eapply erel_weaken; [exact He | | lia]. apply Sof_incl. intros bb Hx. apply fvs_ifc. right. right. left. exact Hx.
           + eapply CK_transfer; [exact Hsh1 | exact HCK1 | | lia]. intros z0 _ Hz0. split; [|reflexivity].
             revert Hz0. apply Sof_incl. intros bb Hx. apply fvs_ifc. right. right. left. exact Hx.
-        - rewrite <- Hkt2 in Hsh1, HCK1. apply (H2 i ltac:(lia) G cur cont1 stt e' st' e ce k Hwe Hf3 Hk2 Hw3 Hn3 Hl).
+        - rewrite <- Hkt2 in Hsh1, HCK1. apply (H2 i ltac:(lia) G cur cont1 stt e' st' e ce k Hwe Hf3 Hk2 Hw3 Hl).
           + eapply Gused_grows; [exact HG | exact G3].
           + eapply incl_grows; [|exact G3].
             intros z Hz. apply Hbn. simpl. rewrite !in_app_iff. tauto.
           + intros x Hx. apply in_cnames_inv in Hx. destruct Hx as [bb [Hbb E]]. subst x.
             eapply names_in_grows; [exact Hni | exact G3 | apply in_cnames; apply Hsub; exact Hbb].
-          + intros x Hx Hin. apply (H8 x); [simpl; rewrite !in_app_iff; tauto|].
-            apply in_cnames_inv in Hin. destruct Hin as [bb [Hbb E]]. rewrite <- E. apply in_cnames. apply Hsub. exact Hbb.
           + exact Hsh1.
           + eapply erel_weaken; [exact He | | lia]. apply Sof_incl. intros bb Hx. apply fvs_ifc. right. right. right. exact Hx.
           + eapply CK_transfer; [exact Hsh1 | exact HCK1 | | lia]. intros z0 _ Hz0. split; [|reflexivity].
             revert Hz0. apply Sof_incl. intros bb Hx. apply fvs_ifc. right. right. right. exact Hx. }
       destruct n as [|n1]; [apply sim_zero|].
       eapply sim_fstep; [reflexivity|]. apply sim_cstep. simpl.
-      apply (Ha n1 ltac:(lia) G cur CI64 st0 a' sta e ce _ _ Hca Hf1 Hka Hkta Hw1 Hn1).
+      apply (Ha n1 ltac:(lia) G cur CI64 st0 a' sta e ce _ _ Hca Hf1 Hka Hkta Hw1).
       - exact Lsta.
       - eapply Gused_grows; [exact HG | exact Hg0].
       - eapply incl_grows; [|exact Hg0]. intros z Hz. apply Hbn. simpl. rewrite !in_app_iff. tauto.
@@ -162,7 +154,7 @@ Section FLf.
           destruct Hcb as [b1 [Hcb Eb]]. subst b'.
           apply andb_prop in Hkb. destruct Hkb as [Hkb Hktb]. apply negb_true_iff in Hktb.
           eapply sim_fstep; [reflexivity|]. apply sim_cstep. simpl.
-          apply (Hb0 j1 ltac:(lia) G cur CI64 sta b1 stb e ce _ _ Hcb Hfb Hkb Hktb Hwb Hnb).
+          apply (Hb0 j1 ltac:(lia) G cur CI64 sta b1 stb e ce _ _ Hcb Hfb Hkb Hktb Hwb).
           * exact Lstb.
           * eapply Gused_grows; [exact HG | exact G1].
           * eapply incl_grows; [|exact G1].
